@@ -115,20 +115,24 @@ def _remap_hir(x, off, ln=None):
     return x
 
 
-def _place_like(e):
-    """a side-effect-free place expression: local, field, &, * chains (safe to substitute for a parameter)"""
-    while isinstance(e, dict):
-        k = e.get("k")
-        if k == "path" and (e.get("res") or {}).get("dk") == "Local":
-            return True
-        if k in ("addr", "use"):
-            e = e.get("e")
-        elif k == "unary" and e.get("op") == "Deref":
-            e = e.get("a")
-        elif k == "field":
-            e = e.get("e")
-        else:
-            return False
+def _place_like(e, depth=0):
+    """a side-effect-free, cheap expression: locals, constants, literals, field / & / * chains and arithmetic over those - safe to
+    substitute for a parameter (evaluating it again changes nothing for an analysis)"""
+    if not isinstance(e, dict) or depth > 6:
+        return False
+    k = e.get("k")
+    if k == "lit":
+        return True
+    if k == "path":
+        return (e.get("res") or {}).get("dk") in ("Local", "Const", "AssocConst", "Static") or str((e.get("res") or {}).get("dk", "")).startswith("Ctor")
+    if k in ("addr", "use", "cast", "paren"):
+        return _place_like(e.get("e"), depth + 1)
+    if k == "unary":
+        return _place_like(e.get("a"), depth + 1)
+    if k == "field":
+        return _place_like(e.get("e"), depth + 1)
+    if k == "binary" and e.get("op") in ("Add", "Sub", "Mul", "Eq", "Ne", "Lt", "Le", "Gt", "Ge"):
+        return _place_like(e.get("a"), depth + 1) and _place_like(e.get("b"), depth + 1)
     return False
 
 
@@ -266,6 +270,26 @@ def apply(fb):
     gone = {}
     for p_ in known - present:
         gone.setdefault((p_.split("::")[0], p_.split("::")[-1]), []).append(p_)
+    # renamed while moved (`generate_seal_signature_payload_v0` -> `Block::seal_signature_payload_v0`): a listed function that is gone
+    # and exactly one unlisted function of the crate sharing a long common substring of the name (>= 60 % of the old name, >= 12
+    # characters), unique in both directions
+    def lcs(a_, b_):
+        best = 0
+        for i_ in range(len(a_)):
+            for j_ in range(len(b_)):
+                k_ = 0
+                while i_ + k_ < len(a_) and j_ + k_ < len(b_) and a_[i_ + k_] == b_[j_ + k_]:
+                    k_ += 1
+                best = max(best, k_)
+        return best
+    gone_names = [(c_, n_, ps_) for (c_, n_), ps_ in gone.items() if len(ps_) == 1]
+    for (c_, n_, ps_) in gone_names:
+        cands = [b_ for b_ in new.values() if b_["crate"] == c_ and (b_["crate"], b_["path"].split("::")[-1]) not in gone and lcs(n_, b_["path"].split("::")[-1]) >= max(12, int(0.6 * len(n_)))]
+        if len(cands) == 1:
+            nm2 = cands[0]["path"].split("::")[-1]
+            rivals = [n2 for (c2, n2, _) in gone_names if c2 == c_ and n2 != n_ and lcs(n2, nm2) >= max(12, int(0.6 * len(n2)))]
+            if not rivals:
+                gone.setdefault((c_, nm2), []).append(ps_[0])
     moved = {}
     for k, b in list(new.items()):
         olds = gone.get((b["crate"], b["path"].split("::")[-1]))
